@@ -70,6 +70,11 @@ def gen_scenario(seed):
         human_round = 0 < ci < ncommits - 1 and rng.chance(1, 3)
         if human_round:
             tags.append("round=human-only")
+        if ci > 0 and rng.chance(1, 2 if human_round else 4):
+            # a checkpoint right after the previous commit, before anything is edited (an IDE plugin, an agent's
+            # pre-edit hook): pending attribution is taken over into the working log before the lines move
+            steps.append({"op": "checkpoint"})
+            tags.append("checkpoint-at-round-start")
         for _ in range(1 + rng.below(5)):
             who = "human" if human_round else rng.pick(sessions + sessions + ["human"])
             if spare and rng.chance(1, 6):
